@@ -41,13 +41,19 @@ int main (int argc, char **argv) {
 	else { dl = nsync_time_no_deadline; blocks = 1; }
 	nsync_mu_init (&mu); nsync_cv_init (&cv);
 	flag = happened;
-	if (!strcmp (entry, "cv") || !strcmp (entry, "cvg") || !strcmp (entry, "mu")) {
+	if (!strcmp (entry, "cv") || !strcmp (entry, "cvg") || !strcmp (entry, "mu") || !strcmp (entry, "cvn") || !strcmp (entry, "mun")) {
+		/* cvn / mun: the same waits given a cancel note that is never notified; when the deadline is a future instant the note's own
+		   expiry lies 20 microseconds after it (the wait ends on its deadline while the note is about to expire); the note is freed
+		   afterwards, which checks that the wait left nothing registered on it */
+		nsync_note cn = NULL;
+		if (entry[2] == 'n') cn = nsync_note_new (NULL, future ? nsync_time_add (dl, nsync_time_us (20)) : nsync_time_no_deadline);
 		if (blocks && !happened) pthread_create (&th, NULL, later, NULL);
 		nsync_mu_lock (&mu);
-		if (!strcmp (entry, "cv")) r = nsync_cv_wait_with_deadline (&cv, &mu, dl, NULL);
+		if (!strcmp (entry, "cv") || !strcmp (entry, "cvn")) r = nsync_cv_wait_with_deadline (&cv, &mu, dl, cn);
 		else if (!strcmp (entry, "cvg")) r = nsync_cv_wait_with_deadline_generic (&cv, &mu, g_lock, g_unlock, dl, NULL);
-		else r = nsync_mu_wait_with_deadline (&mu, cond_flag, &flag, NULL, dl, NULL);
+		else r = nsync_mu_wait_with_deadline (&mu, cond_flag, &flag, NULL, dl, cn);
 		nsync_mu_unlock (&mu);
+		if (cn != NULL) nsync_note_free (cn);
 		timed_out = (r == ETIMEDOUT);
 		if (r != 0 && r != ETIMEDOUT) { printf ("bad_result_%d\n", r); return 0; }
 	} else if (!strcmp (entry, "notenew")) {     /* the deadline is the note's own expiry; then wait on it for ever */
